@@ -13,6 +13,7 @@ import time
 
 VERIF = os.path.dirname(os.path.dirname(os.path.abspath(__file__)))
 REPO = os.environ.get("VERIF_REPO", "/repo")
+OUT = os.environ.get("VERIF_OUT", VERIF)      # evidence/ and work/replays/ go here (selftest runs several trees in parallel)
 COQDIR = os.path.join(VERIF, "coq")
 PY = "/venv/bin/python"
 NCPU = int(os.environ.get("VERIF_JOBS", "16"))
